@@ -2,8 +2,8 @@ SPECIFICATION Spec
 CONSTANTS
   WrapFix = TRUE
   Vals = {1, 2, 3, 4}
-  Epoch = 3
-  InitNumber = 0
+  Epoch = 1
+  InitNumber = 1
   InitSet = {1, 2, 3}
   InitSigner = 1
   MaxNumber = 9
